@@ -80,6 +80,27 @@ def _norm(fi):
     from ..astutil import publish_normalised
     from ..frontend import set_parents
     node = publish_normalised(fi.node)
+    # a cross-section on an index level is the mask on that level:  X.xs(k, level='L')  ->  X[T.index.get_level_values('L') == k]
+    # (T: the table X is a column of); the dropped level does not matter to the values and their order
+    if any(isinstance(c_, ast.Call) and isinstance(c_.func, ast.Attribute) and c_.func.attr == "xs" for c_ in ast.walk(node)):
+        if node is fi.node:
+            node = copy.deepcopy(fi.node)
+
+        class XS(ast.NodeTransformer):
+            def visit_Call(self, c_):
+                self.generic_visit(c_)
+                if isinstance(c_.func, ast.Attribute) and c_.func.attr == "xs" and len(c_.args) == 1:
+                    lv = next((k_.value for k_ in c_.keywords if k_.arg == "level"), None)
+                    recv = c_.func.value
+                    tab = recv.value if isinstance(recv, ast.Attribute) and is_self_attr(recv.value) else recv
+                    if lv is not None and isinstance(const_value(lv), str):
+                        mask = ast.Compare(left=ast.Call(func=ast.Attribute(value=ast.Attribute(value=copy.deepcopy(tab), attr="index",
+                                                                                                 ctx=ast.Load()),
+                                                                            attr="get_level_values", ctx=ast.Load()),
+                                                         args=[lv], keywords=[]), ops=[ast.Eq()], comparators=[c_.args[0]])
+                        return ast.copy_location(ast.Subscript(value=recv, slice=mask, ctx=ast.Load()), c_)
+                return c_
+        node = ast.fix_missing_locations(XS().visit(node))
     if node is fi.node:
         return fi
     set_parents(node)
@@ -142,7 +163,7 @@ def lookup_methods(prog):
             continue
         if any(isinstance(c.func, ast.Attribute) and c.func.attr == "searchsorted" or call_name(c) in
                ("np.searchsorted", "numpy.searchsorted") for c in calls_in(fi.node)):
-            out.append(fi)
+            out.append(_norm(fi))           # attribute aliases folded back, .xs(level=) as the level mask
     return ci, out
 
 
